@@ -1408,6 +1408,12 @@ def float_is_sign(neg):
             d2 = m.order.decide("Gt" if neg else "Lt", v, F.ZERO)
             if d2 is True:
                 return False
+            # undecided: fork on the numeric sign; only for a zero (or NaN) is the sign bit itself unknown
+            if m.order.nan_status(v) is False or m.cfg.finite:
+                if m.truth(("fcmp", "Lt" if neg else "Gt", v, F.ZERO), sp, "is_sign"):
+                    return True
+                if m.truth(("fcmp", "Gt" if neg else "Lt", v, F.ZERO), sp, "is_sign"):
+                    return False
         return ("bopq", m.new_name("is_sign"))
     return h
 
@@ -2998,3 +3004,22 @@ def model_next(m, it, sp, item_ty=None):
 
 BY_NAME["core::iter::sources::successors::successors"] = iter_successors
 BY_NAME["core::iter::successors"] = iter_successors
+
+
+def int_next_power_of_two(m, ref, args, t, sp):
+    a = simp(args[0])
+    if isinstance(a, int) and not isinstance(a, bool) and a >= 0:
+        return 1 if a <= 1 else 1 << (a - 1).bit_length()
+    raise Unsupported("next_power_of_two of a symbolic integer")
+
+
+def int_is_power_of_two(m, ref, args, t, sp):
+    a = simp(args[0])
+    if isinstance(a, int) and not isinstance(a, bool):
+        return a > 0 and (a & (a - 1)) == 0
+    raise Unsupported("is_power_of_two of a symbolic integer")
+
+
+for _t in ("u64", "usize", "u32", "u128", "u8", "u16"):
+    BY_NAME["core::num::<impl %s>::next_power_of_two" % _t] = int_next_power_of_two
+    BY_NAME["core::num::<impl %s>::is_power_of_two" % _t] = int_is_power_of_two
